@@ -130,13 +130,29 @@ def cvcUnwrapS (cert : List UInt8) : Bool × DSt :=
     | (_, st) => (false, st)
   | _ => (false, {})
 
-/-! ### the structure image -/
-
-def padTo (n : Nat) (v : List UInt8) : List UInt8 := (v ++ List.replicate n 0).take n
-
 /-- the last record written for a field (none if the field was not written) -/
 def fieldOf (st : DSt) (field : Nat) : Option (List UInt8) :=
   (st.outs.reverse.find? (fun e => e.headD 0 = UInt8.ofNat field)).map (fun e => e.drop 1)
+
+/-- the verifying paths of btokCVCUnwrap(cvc, cert, cert_len, pubkey, kl) up to the call of btokVerify: the length
+    of the signature comes from the key length (kl = 0: the certificate's own key, `pubkey == cvc->pubkey`);
+    `cvc->sig_len` is set before the signature is decoded, so a failed decode leaves sig_len = n over a zero sig -/
+def cvcUnwrapKS (cert : List UInt8) (kl : Nat) : DSt :=
+  match derTSEQDecStart cert 0x7F21 with
+  | .ok (_, t) =>
+    match cvcBodyDecS (cert.drop t) with
+    | (.ok bl, st) =>
+      let pk := if kl = 0 then ((fieldOf st fPubkey).getD []).length else kl
+      let n := if pk = 48 then 34 else pk - pk / 4
+      match derTOCTDec2 (cert.drop (t + bl)) 0x5F37 n with
+      | .ok (v, _) => wr st fSig v
+      | _ => wr st fSig (List.replicate n 0)
+    | (_, st) => st
+  | _ => {}
+
+/-! ### the structure image -/
+
+def padTo (n : Nat) (v : List UInt8) : List UInt8 := (v ++ List.replicate n 0).take n
 
 structure CvcImg where
   authority : List UInt8
